@@ -41,7 +41,7 @@ def obligations(cx):
                           "every reported feed temperature is positive")
             else:
                 ft = st.field('feed_temperature'); k = var('k', 'I')
-                cx.ob(t + ".temperature-positive", st.pc + [k >= 0, k < N], (ft.fn(k) > 0) if isinstance(ft, Seq) else FALSE, function=fn,
+                cx.ob(t + ".temperature-positive", st.pc + [k >= 0, k < N], (need_seq(ft, 'feed_temperature').fn(k) > 0), function=fn,
                       statement="isothermal: the reported temperature is the (admissible, positive) initial temperature")
             xn = st.appended('feed_composition').f['p']; x0 = st.init('feed_composition')[0].f['p']
             cx.ob(t + ".feed-fraction.base", st.pc, band(x0 >= 0, x0 <= 1), function=fn, statement="feed mass fraction of step 0 in [0,1]")
